@@ -1,5 +1,5 @@
 """Property C20: non-finite detection regardless of the caller's compiler flags.
-Sixteen harness binaries (true_math.c under 4 flag sets x caller under 4 flag sets) are run on the
+36 harness binaries (true_math.c under 4 flag sets x caller under 9 flag sets, including partial fast-math sets) are run on the
 complete finite product of special values x component positions x container types and compared
 with the bit-level model."""
 import json, os, subprocess, time, itertools
@@ -9,6 +9,12 @@ from .core import log
 from . import runner
 
 FLAGSETS = {'O0': ['-O0'], 'O2': ['-O2'], 'O3fast': ['-O3', '-ffast-math'], 'Ofast': ['-Ofast']}
+# the caller may enable any subset of the fast-math family (each sub-flag alone removes NaN/inf handling or not, and only
+# the full set defines __FAST_MATH__)
+CALLER_FLAGSETS = dict(FLAGSETS)
+CALLER_FLAGSETS.update({'O2finite': ['-O2', '-ffinite-math-only'], 'O2fast-signedzeros': ['-O2', '-ffast-math', '-fsigned-zeros'],
+                        'O3fast-trapping': ['-O3', '-ffast-math', '-ftrapping-math'], 'Ofast-errno': ['-Ofast', '-fmath-errno'],
+                        'O1nonans': ['-O1', '-ffinite-math-only', '-fno-signed-zeros']})
 
 D = {'qnan': '7ff8000000000000', 'snan-payload': '7ff0000000000001', 'neg-qnan': 'fff8000000000000', '+inf': '7ff0000000000000', '-inf': 'fff0000000000000',
      '+0': '0000000000000000', '-0': '8000000000000000', 'denormal': '0000000000000001', '-denormal': '8000000000000001',
@@ -79,9 +85,9 @@ def run(spec, group, tier, seed, replay=None):
     fails, total = [], 0
     known = runner.load_known()
     with core.Scratch() as scr:
-        combos = [(a, b) for a in FLAGSETS for b in FLAGSETS]
-        with ThreadPoolExecutor(8) as ex:
-            built = list(ex.map(lambda ab: build(scr, FLAGSETS[ab[0]], FLAGSETS[ab[1]], 'tm%s-caller%s' % ab), combos))
+        combos = [(a, b) for a in FLAGSETS for b in CALLER_FLAGSETS]
+        with ThreadPoolExecutor(16) as ex:
+            built = list(ex.map(lambda ab: build(scr, FLAGSETS[ab[0]], CALLER_FLAGSETS[ab[1]], 'tm%s-caller%s' % ab), combos))
         for (a, b), (exe, err) in zip(combos, built):
             if exe is None:
                 broken.append('harness tm (true_math %s, caller %s) does not compile: %s' % (a, b, (err or '')[-600:])); continue
@@ -120,8 +126,10 @@ C20 = dict(
     id='C20', module='EpsicProofs.Props.C20', run=run,
     rule='the complete finite product {quiet NaN, NaN with payload, negative NaN, +-inf, +-0, +-denormal, +-largest finite, +-1} x every '
          'component position x {scalar, complex, Vector N=1..6, Jones, Estimate value / variance} x '
-         '{float, double, long double}, evaluated by 16 binaries: true_math.c compiled with -O0, -O2, -O3 -ffast-math, -Ofast '
-         'crossed with the caller compiled under the same four flag sets; every result compared with the bit-level model',
+         '{float, double, long double}, evaluated by 36 binaries: true_math.c compiled with -O0, -O2, -O3 -ffast-math, -Ofast '
+         'crossed with the caller compiled under those four flag sets and five partial fast-math sets (-ffinite-math-only alone, '
+         '-ffast-math with -fsigned-zeros / -ftrapping-math / -fmath-errno restored, -ffinite-math-only -fno-signed-zeros); '
+         'every result compared with the bit-level model',
     assumptions=['IEEE-754 / x87 encodings; only the installed compiler is covered'],
     partial='other compilers and versions',
 )
